@@ -30,4 +30,32 @@ def c01_reinit(inp, obligation):
         c.init_adaptive_combi_scheme(lmax, lmin)
         if st(c) != st(fresh):
             bad.append("%s: state after init_adaptive_combi_scheme(%d,%d) is %s, a fresh object has %s" % (hist, lmax, lmin, st(c), st(fresh)))
-    return bool(bad), {"dim": d, "lmax": lmax, "lmin": lmin, "violations": bad[:3]}
+    if bad:
+        return True, {"dim": d, "lmax": lmax, "lmin": lmin, "violations": bad[:3]}
+    # focused native search: every refinement history of length <= 3 (all choices of active level vectors) of an object initialised with the same
+    # levels, in the model's dimension and in dimension 3 (interior refinements that never pass lmax need three dimensions and lmax >= lmin + 2)
+    import copy
+    tried = 0
+    for dd, lo, hi in sorted({(d, lmin, lmax), (3, 1, 3), (3, lmin, max(lmax, lmin + 2)), (2, 1, 3)}):
+        ref = CombiScheme(dd)
+        ref.init_adaptive_combi_scheme(hi, lo)
+        want = st(ref)
+        start = CombiScheme(dd)
+        start.init_adaptive_combi_scheme(hi, lo)
+        stack = [(start, [])]
+        while stack and tried < 1500:
+            c, hist = stack.pop()
+            tried += 1
+            probe = copy.deepcopy(c)
+            probe.init_adaptive_combi_scheme(hi, lo)
+            if st(probe) != want:
+                bad.append("dimension %d, init(%d,%d), then refinements %s, then init(%d,%d) again: state %s, a fresh object has %s" % (dd, hi, lo, hist, hi, lo, st(probe), want))
+                break
+            if len(hist) < 3:
+                for idx in sorted(c.active_index_set):
+                    n = copy.deepcopy(c)
+                    n.update_adaptive_combi(list(idx))
+                    stack.append((n, hist + [idx]))
+        if bad:
+            break
+    return bool(bad), {"dim": d, "lmax": lmax, "lmin": lmin, "histories_tried": tried, "violations": bad[:3]}
